@@ -172,6 +172,7 @@ func metricsEngine(rng *Rng, n int, out *Out, args map[string]string) {
 		out.Op("mt new db="+dbMode, "ok")
 		out.Stat("case.db."+strings.SplitN(dbMode, ":", 2)[0], 1)
 		keys := []string{"key-a", "key-b", "", "k3"}
+		bursts := 0
 		type tconn struct {
 			id     int
 			m      service.TCPConnMetrics
@@ -298,6 +299,7 @@ func metricsEngine(rng *Rng, n int, out *Out, args map[string]string) {
 					out.Op(fmt.Sprintf("mt udpadd u=%d %s key=%s", nextID, addrField(f), hexs([]byte(key))), "ok")
 				}
 				out.Stat("op.burst", 1)
+				bursts++
 				// a scrape at the same moment as closes (and opens): the clock stands still, so any
 				// serial order of the calls leaves the same totals
 				if len(udps) >= 2 && r.Chance(60) {
@@ -360,15 +362,17 @@ func metricsEngine(rng *Rng, n int, out *Out, args map[string]string) {
 				dump, text := gather(reg)
 				out.Op("mt scrape", dump)
 				out.Stat("op.scrape", 1)
-				checkTunnelTime(out, text, covered)
+				checkTunnelTime(out, text, covered, bursts > 0)
 				checkNoClientAddr(out, text, allForms)
+				checkLocationLabels(out, text, dbMode)
 			}
 		}
 		advanceRef()
 		dump, text := gather(reg)
 		out.Op("mt scrape", dump)
-		checkTunnelTime(out, text, covered)
+		checkTunnelTime(out, text, covered, bursts > 0)
 		checkNoClientAddr(out, text, allForms)
+		checkLocationLabels(out, text, dbMode)
 		restore()
 	}
 }
@@ -464,7 +468,7 @@ func gather(reg *prometheus.Registry) (string, map[string]*family) {
 		one("udp_nat_entries_added"), one("udp_nat_entries_removed"), udppk), fams
 }
 
-func checkTunnelTime(out *Out, fams map[string]*family, covered map[string]int64) {
+func checkTunnelTime(out *Out, fams map[string]*family, covered map[string]int64, concurrent bool) {
 	got := map[string]int64{}
 	if f, ok := fams["tunnel_time_seconds"]; ok {
 		for l, v := range f.samples {
@@ -482,6 +486,11 @@ func checkTunnelTime(out *Out, fams map[string]*family, covered map[string]int64
 	for k := range keys {
 		if got[k] != covered[k] {
 			out.Oracle("C17", "tunnel_time_seconds{access_key=%q} = %d s, but its clients had a tunnel open for %d s in total", k, got[k], covered[k])
+			if concurrent {
+				// the clock stood still during every concurrent burst of this case, so all sequential orders of the
+				// concurrent calls give the same totals: a different total is the result of no sequential order
+				out.Oracle("C19", "after concurrent opens/closes/scrapes (clock standing still) tunnel_time_seconds{access_key=%q} = %d s; every sequential order of the same calls gives %d s", k, got[k], covered[k])
+			}
 		}
 		sumKey += got[k]
 	}
@@ -492,6 +501,32 @@ func checkTunnelTime(out *Out, fams map[string]*family, covered map[string]int64
 	}
 	if sumKey != sumLoc {
 		out.Oracle("C17", "per-location tunnel time totals %d s, per-key totals %d s", sumLoc, sumKey)
+	}
+}
+
+// checkLocationLabels: with ONE database behaviour for the whole case, the location labels a scrape may
+// show are fixed by the classes of C20 alone: XA (unparseable), "" (lookup disabled), XL (non-global),
+// XD (database error, whatever partial answer came with it), ZZ (no country), else the database's answer.
+func checkLocationLabels(out *Out, fams map[string]*family, dbMode string) {
+	allowed := map[string]bool{}
+	switch {
+	case dbMode == "disabled":
+		allowed[""], allowed["XA"] = true, true
+	case strings.HasPrefix(dbMode, "fails"):
+		allowed["XA"], allowed["XL"], allowed["XD"] = true, true, true
+	case dbMode == "answers:":
+		allowed["XA"], allowed["XL"], allowed["ZZ"] = true, true, true
+	default:
+		allowed["XA"], allowed["XL"], allowed[strings.TrimPrefix(dbMode, "answers:")] = true, true, true
+	}
+	for _, f := range fams {
+		for l := range f.samples {
+			for _, p := range strings.Split(l, ",") {
+				if strings.HasPrefix(p, "location=") && !allowed[p[len("location="):]] {
+					out.Oracle("C20", "with database behaviour %q the scrape shows %s{%s}: a location label that no client class of this case can have", dbMode, f.name, l)
+				}
+			}
+		}
 	}
 }
 
